@@ -24,10 +24,10 @@ fn var_json(env: &VEnv, name: &str) -> Value {
     }
 }
 
-/// `xv`: records the values of x and y (observation of `${x=word}`); status 0.
+/// `xv`: records the values of x, y and IFS (observation of `${x=word}`); status 0.
 fn xv_main(env: &mut VEnv, _args: Vec<Field>) -> Pin<Box<dyn Future<Output = BResult> + '_>> {
     Box::pin(async move {
-        push_event(json!({"ev": "xv", "x": var_json(env, "x"), "y": var_json(env, "y")}));
+        push_event(json!({"ev": "xv", "x": var_json(env, "x"), "y": var_json(env, "y"), "ifs": var_json(env, "IFS")}));
         BResult::new(ExitStatus(0))
     })
 }
@@ -138,11 +138,11 @@ pub fn run_words(r: &Render, st: &Value, words: &[&[Value]]) -> Result<Vec<Obs>,
                         let f: Vec<Value> =
                             p["args"].as_array().unwrap().iter().map(|a| json!(r.untext(a.as_str().unwrap()))).collect();
                         json!({"k": "ok", "f": f, "x": untext_val(r, &v["x"]), "y": untext_val(r, &v["y"]),
-                               "status": e["st"], "stderr": ""})
+                               "ifs": untext_val(r, &v["ifs"]), "status": e["st"], "stderr": ""})
                     }
-                    (None, None) => json!({"k": "err", "f": [], "x": {"set": false, "v": ""}, "y": {"set": false, "v": ""},
+                    (None, None) => json!({"k": "err", "f": [], "x": {"set": false, "v": ""}, "y": {"set": false, "v": ""}, "ifs": {"set": false, "v": ""},
                                            "status": e["st"], "stderr": r.untext(e["err"].as_str().unwrap())}),
-                    _ => json!({"k": "odd", "f": [], "x": {"set": false, "v": ""}, "y": {"set": false, "v": ""},
+                    _ => json!({"k": "odd", "f": [], "x": {"set": false, "v": ""}, "y": {"set": false, "v": ""}, "ifs": {"set": false, "v": ""},
                                 "status": e["st"], "stderr": r.untext(e["err"].as_str().unwrap())}),
                 };
                 out.push(Obs { text: texts[id].clone(), obs });
@@ -174,7 +174,7 @@ pub fn run_words(r: &Render, st: &Value, words: &[&[Value]]) -> Result<Vec<Obs>,
                 let id = out.len();
                 out.push(Obs {
                     text: texts[id].clone(),
-                    obs: json!({"k": what, "f": [], "x": {"set": false, "v": ""}, "y": {"set": false, "v": ""},
+                    obs: json!({"k": what, "f": [], "x": {"set": false, "v": ""}, "y": {"set": false, "v": ""}, "ifs": {"set": false, "v": ""},
                                 "status": -1, "stderr": ""}),
                 });
             }
